@@ -147,6 +147,7 @@ Scenario gen_mix(vu::Rng& rng, const Knobs& k, const std::string& family) {
     sc.bcfg.suback_wrong_count_pct = k.hostile_count_pct; sc.bcfg.ack_bad_rc_pct = k.hostile_rc_pct;
     sc.net.chunking = rng.pick(std::vector<Chunking>{Chunking::whole, Chunking::whole, Chunking::bytewise, Chunking::random});
     if (rng.chance(1, 4)) sc.net.write_done_delay_max = (vt)rng.range(10 * US, 3 * MS);
+    else if (rng.chance(1, 8)) sc.net.write_done_delay_max = (vt)rng.pick(std::vector<vt>{40 * MS, 300 * MS});   // replies overtake the write completion
     if (rng.chance(1, 4)) { sc.net.latency_min = 1 * MS; sc.net.latency_max = (vt)rng.range(2 * MS, 80 * MS); }
     Action r; r.kind = Action::run; r.at = 0; sc.script.push_back(r);
     int npubs = (int)rng.range(k.pubs_min, k.pubs_max);
